@@ -7,7 +7,9 @@
 From Coq Require Import List ZArith Bool Arith.
 Import ListNotations.
 
-Record cmd := mkCmd { cls : nat; params : list Z; modes : list nat; dag : bool }.
+(* opts: the measurement options (select, dark_counts) that are not part of op.p — compared since fix 19a0026;
+   the harness maps each distinct (select, dark_counts) value to an id, [] for operations that have none *)
+Record cmd := mkCmd { cls : nat; params : list Z; modes : list nat; dag : bool; opts : list Z }.
 Record prog := mkProg { target : option nat; register : list (nat * bool); circuit : list cmd }.
 
 Fixpoint list_eqb {A} (eqb : A -> A -> bool) (l1 l2 : list A) : bool :=
@@ -39,13 +41,24 @@ Definition cmd_eqb (a b : cmd) : bool :=
   Nat.eqb (cls a) (cls b)
   && (Nat.eqb (length (params a)) (length (params b)) && zip_all Z.eqb (params a) (params b))
   && (Nat.eqb (length (modes a)) (length (modes b)) && zip_all Nat.eqb (modes a) (modes b))
-  && Bool.eqb (dag a) (dag b).
+  && Bool.eqb (dag a) (dag b)
+  && list_eqb Z.eqb (opts a) (opts b).
 
 Definition prog_eq (p q : prog) : bool :=
   opt_eqb (target p) (target q)
   && list_eqb reg_eqb (register p) (register q)
   && Nat.eqb (length (circuit p)) (length (circuit q))
   && zip_all cmd_eqb (circuit p) (circuit q).
+
+(* the comparison before fix 19a0026: post-selection values / dark counts ignored *)
+Definition cmd_eqb_noopts (a b : cmd) : bool :=
+  Nat.eqb (cls a) (cls b)
+  && (Nat.eqb (length (params a)) (length (params b)) && zip_all Z.eqb (params a) (params b))
+  && (Nat.eqb (length (modes a)) (length (modes b)) && zip_all Nat.eqb (modes a) (modes b))
+  && Bool.eqb (dag a) (dag b).
+Definition prog_eq_noopts (p q : prog) : bool :=
+  opt_eqb (target p) (target q) && list_eqb reg_eqb (register p) (register q)
+  && Nat.eqb (length (circuit p)) (length (circuit q)) && zip_all cmd_eqb_noopts (circuit p) (circuit q).
 
 (* The comparison as it stood before the "fix:" commit (zip truncation, no dagger): kept so the
    refutation of the old behaviour stays machine-checked. *)
